@@ -108,7 +108,7 @@ def run_case(chk, kind, N, s3, s4, tag, do_compose):
                     if sum(1 for k in br if sum(k) == 0) == 0 and j == i + 3:
                         okc, badc = False, (i, j, 'constant term missing')
             oid = 'C08/(3)canonical {Phi_i,Phi_j} = J_ij/%s' % label
-            (chk.ok if okc else (lambda o, d: chk.fail(o, d, None)))(oid, 'all 15 brackets up to degree %d%s' % (N - 1, '' if okc else '; first failure %s' % (badc,)))
+            (chk.ok if okc else (lambda o, d: chk.fail(o, d, _replay_series(max(N, 6)))))(oid, 'all 15 brackets up to degree %d%s' % (N - 1, '' if okc else '; first failure %s' % (badc,)))
             # (4) inverse o forward = id  mod degree N+1
             okid = True
             for i in range(6):
@@ -118,7 +118,7 @@ def run_case(chk, kind, N, s3, s4, tag, do_compose):
                 ok, key = R.same_poly(c, {tuple(e): Sym.const(1)})
                 okid = okid and ok
             oid = 'C08/(4)inverse o forward = id/%s' % label
-            (chk.ok if okid else (lambda o, d: chk.fail(o, d, None)))(oid, 'all six coordinate series up to degree %d' % N)
+            (chk.ok if okid else (lambda o, d: chk.fail(o, d, _replay_series(max(N, 6)))))(oid, 'all six coordinate series up to degree %d' % N)
     st = chk.absorb(ex)
     chk.note('%s: %.1f s, %d generic decisions' % (label, time.time() - t0, st['generic_nonzero_notes']))
 
